@@ -78,8 +78,8 @@ pub struct Ctx {
     /// spin units at begin / in run (free-run jitter)
     pub jitter_begin: Vec<AtomicU32>,
     pub jitter_run: Vec<AtomicU32>,
-    /// system is held inside `run` while true (C15)
-    pub hold: Vec<AtomicBool>,
+    /// system is held inside its k-th run (1-based) while this equals k; 0 = not held (C15)
+    pub hold: Vec<AtomicU32>,
     pub holding: Vec<AtomicBool>,
     pub active: AtomicUsize,
     pub seq_inner: AtomicBool,
@@ -148,7 +148,7 @@ impl Ctx {
             fault: av(n, || AtomicU8::new(0)),
             jitter_begin: av(n, || AtomicU32::new(0)),
             jitter_run: av(n, || AtomicU32::new(0)),
-            hold: av(n, || AtomicBool::new(false)),
+            hold: av(n, || AtomicU32::new(0)),
             holding: av(n, || AtomicBool::new(false)),
             active: AtomicUsize::new(0),
             seq_inner: AtomicBool::new(false),
@@ -272,9 +272,10 @@ impl Ctx {
     }
 
     fn hold_here(&self, idx: usize) {
-        if self.hold[idx].load(SeqCst) {
+        let target = self.hold[idx].load(SeqCst);
+        if target != 0 && target == self.run[idx].load(SeqCst) {
             self.holding[idx].store(true, SeqCst);
-            while self.hold[idx].load(SeqCst) {
+            while self.hold[idx].load(SeqCst) == target {
                 std::thread::sleep(Duration::from_micros(200));
             }
             self.holding[idx].store(false, SeqCst);
